@@ -23,7 +23,9 @@ structure SignLaw (mk : Key → Hash → Att) : Prop where
 example : SignLaw ownAtt := ⟨fun k _ => verifies_own k⟩
 
 /--
-  **Consent.**  For every history `pre`, every time `now` and every next event `e`: if the node emits an AttestPayload
+  **Consent.**  For every object `s0` that starts fresh over an arbitrary valid database (`Fresh`: `init`, or any
+  restart of any earlier object, see `every_lifetime_starts_fresh`), every history `pre` of that object, every time
+  `now` and every next event `e`: if the node emits an AttestPayload
   for metadata `mp` to peer `p`, then
   * `e` is a disclosure (Disclose or MissingResponse message) from `p` itself,
   * `pre` contains an `add_known_hash` call at some time `t0` with `now ≤ t0 + 300`, for exactly subject key `p`, exactly
@@ -31,11 +33,12 @@ example : SignLaw ownAtt := ⟨fun k _ => verifies_own k⟩
     (padded) hash is the content hash of the token the metadata points to,
   * the metadata is a JSON dict with name, date and schema, is signed by `p`, and points to a token signed by `p` that is
     in `p`'s tree,
-  * every token and every (authority, attestation) pair of the triggering message verifies ("the disclosed chain
-    verifies").
+  * every token and every (authority, attestation) pair of the triggering message verifies, and the token the metadata
+    points to has an unbroken path (`Rooted`) of tokens, all verifying under `p`, down to `p`'s genesis hash
+    ("the disclosed chain verifies").
 -/
-theorem sign_requires_consent (me : Key) (g : List (Key × Hash)) (pre : List (Nat × Event)) (now : Nat) (e : Event)
-    (p : Key) (mp : Hash) (h : Out.attest p mp ∈ (step now (run (init me g) pre).1 e).2) :
+theorem sign_requires_consent (g : List (Key × Hash)) (s0 : Node) (hs0 : Fresh g s0) (pre : List (Nat × Event))
+    (now : Nat) (e : Event) (p : Key) (mp : Hash) (h : Out.attest p mp ∈ (step now (run s0 pre).1 e).2) :
     ∃ (msg : Msg) (order : List Hash) (m : Metadata) (j : Json) (tk : Token) (t0 len raw padded : Nat)
       (md : Option Extra),
       e = .disclosure p msg order ∧
@@ -44,11 +47,13 @@ theorem sign_requires_consent (me : Key) (g : List (Key × Hash)) (pre : List (N
       now ≤ t0 + 300 ∧ (md = none ∨ md = some j.extra) ∧
       m.id = mp ∧ m.json = some j ∧ j.has .name = true ∧ j.has .date = true ∧ j.has .schema = true ∧
       tk.id = m.tokenPtr ∧ verifies m.vk p = true ∧ verifies tk.vk p = true ∧
-      (∀ t ∈ msg.tokens, verifies t.vk p = true) ∧ (∀ a ∈ msg.atts, verifies a.2.vk a.1 = true) := by
-  have hok := run_ok me g pre
-  have hkn : KnownFrom pre (run (init me g) pre).1 := by
-    simpa using run_knownFrom pre [] _ (init_knownFrom me g)
-  generalize (run (init me g) pre).1 = s at h hok hkn
+      (∀ t ∈ msg.tokens, verifies t.vk p = true) ∧ (∀ a ∈ msg.atts, verifies a.2.vk a.1 = true) ∧
+      (∃ els : List Token, (∀ x ∈ els, verifies x.vk p = true) ∧ Rooted ((lookup p g).getD 0) els tk) := by
+  have hok := run_ok' hs0.nodeOk pre
+  obtain ⟨hroot, hgen⟩ := run_rooted' hs0.rooted hs0.genesis pre
+  have hkn : KnownFrom pre (run s0 pre).1 := by
+    simpa using run_knownFrom pre [] _ (fresh_knownFrom hs0)
+  generalize (run s0 pre).1 = s at h hok hkn hroot hgen
   cases e with
   | addKnown l raw padded name key md => simp [step] at h
   | attestMsg q a => simp [step] at h
@@ -65,11 +70,16 @@ theorem sign_requires_consent (me : Key) (g : List (Key × Hash)) (pre : List (N
     obtain ⟨hmem, htid⟩ := find?_mem_elements hfind
     have hsok := substantiate_ok hok p msg
     obtain ⟨htoks, hatts⟩ := substantiate_correct hcorr hab
+    have hsroot := substantiate_rooted hroot p msg
+    have hg1 : genesisOf (substantiate s p msg).1 p = (lookup p g).getD 0 := by
+      simp only [genesisOf]; rw [(substantiate_frame s p msg).2.2.2.2.2, hgen]
     refine ⟨msg, order, m, j, tk, r.t, len, raw, padded, r.md, rfl, ?_, hh, hage, hmd, hid, hj, hn, hd, hsc, htid,
-            ?_, ?_, htoks, hatts⟩
+            ?_, ?_, htoks, hatts, (treeOf (substantiate s p msg).1 p).elements, ?_, ?_⟩
     · rw [hname, ← hkey, ← hxe]; exact hx
     · exact hsok.mds _ (credentials_mem hm)
     · exact treeOf_ok hsok p tk (Or.inl hmem)
+    · exact fun x hx => treeOf_ok hsok p x (Or.inl hx)
+    · rw [← hg1]; exact treeOf_rooted hsroot p tk hmem
 
 /-- non-vacuity of `sign_requires_consent`: a registration at t=100, an honest disclosure at t=400 is attested
     (exactly at the end of the window), at t=401 it is not -/
@@ -86,6 +96,17 @@ example : (step 150 (run (init 1 [(1, 0), (2, 1)]) [(100, .addKnown 32 7 8 1 3 n
     (.disclosure 2 { tokens := [exTok, { id := 13, prev := 11, content := 9, vk := 4 }], mds := [exMd] } [12])).2 = [] := by
   decide
 
+/-
+  The property text says "less than five minutes earlier".  The strict statement (`now < t0 + 300` in
+  `sign_requires_consent`) is NOT provable: the code rejects `time() > t + 300` ("Refuse to sign blocks older than 5
+  minutes"), so a registration that is exactly 300 s old still signs.  Judged not a defect (one instant of a float clock;
+  the code agrees with its own comment); the proved bound is `now ≤ t0 + 300`, and the witness for the boundary is:
+-/
+theorem window_is_closed_at_300 :
+    Out.attest 2 12 ∈ (step (100 + 300) (run (init 1 [(1, 0), (2, 1)]) exPre).1 (.disclosure 2 exMsg [12])).2 ∧
+    Out.attest 2 12 ∉ (step (100 + 301) (run (init 1 [(1, 0), (2, 1)]) exPre).1 (.disclosure 2 exMsg [12])).2 := by
+  decide
+
 /--
   **Not attested already.**  Over any history, no two AttestPayloads are made over the same metadata: the list of
   attested metadata hashes has no duplicates (whatever third-party attestations were stored in between, however often a
@@ -94,6 +115,26 @@ example : (step 150 (run (init 1 [(1, 0), (2, 1)]) [(100, .addKnown 32 7 8 1 3 n
 theorem attests_each_metadata_once (me : Key) (g : List (Key × Hash)) (evs : List (Nat × Event)) :
     (attestsOf (run (init me g) evs).2).Nodup :=
   (run_attested evs (init me g)).2.2
+
+/--
+  The same from ANY starting state — in particular from a state whose database rows, metadata rows and trees were left
+  behind by an earlier object (a restart keeps the database, `attested_metadata` starts empty): within one object
+  lifetime nothing is attested twice and nothing that the object has on record is attested again.
+  NOT covered (and false in the model, see the example below): across two lifetimes.  The database guard cannot see the
+  node's own earlier attestation if a third party's row for the same (subject, metadata) was stored first, so after a
+  restart AND a renewed registration by the user the metadata can be attested a second time.
+-/
+theorem attests_each_metadata_once_per_lifetime (s : Node) (evs : List (Nat × Event)) :
+    (attestsOf (run s evs).2).Nodup ∧ ∀ mp ∈ attestsOf (run s evs).2, mp ∉ s.attested :=
+  ⟨(run_attested evs s).2.2, fun mp h => ((run_attested evs s).2.1 mp h).2⟩
+
+/-- second lifetime: the database kept the third party's row (12 attested by key 3), memory is fresh, the user
+    registers again, the old disclosure is replayed → attested again; with the node's own row kept instead → refused -/
+example : attestsOf (run { init 1 [(1, 0), (2, 1)] with
+      attRows := [⟨2, 3, { mptr := 12, sig := .ext 5, vk := 8 }⟩] }
+    (exPre ++ [(120, .disclosure 2 exMsg [12])])).2 = [12] := by decide
+example : attestsOf (run { init 1 [(1, 0), (2, 1)] with attRows := [⟨2, 1, ownAtt 1 12⟩] }
+    (exPre ++ [(120, .disclosure 2 exMsg [12])])).2 = [] := by decide
 
 /-- the replayed disclosure of the example above, also with a third party's attestation stored first -/
 example : attestsOf (run (init 1 [(1, 0), (2, 1)])
@@ -134,9 +175,9 @@ theorem disclosure_stores_only_verified (now : Nat) (s : Node) (p : Key) (msg : 
   received_rows h
 
 /-- Over any history, every row of the Attestations table verifies under its authority key. -/
-theorem stored_attestations_verify (me : Key) (g : List (Key × Hash)) (evs : List (Nat × Event)) :
-    ∀ r ∈ (run (init me g) evs).1.attRows, verifies r.att.vk r.authority = true :=
-  (run_ok me g evs).rows
+theorem stored_attestations_verify (g : List (Key × Hash)) (s0 : Node) (hs0 : Fresh g s0)
+    (evs : List (Nat × Event)) : ∀ r ∈ (run s0 evs).1.attRows, verifies r.att.vk r.authority = true :=
+  (run_ok' hs0.nodeOk evs).rows
 
 /--
   **Token hand-out.**  In any state, the only event that makes the node emit a MissingResponsePayload is a
@@ -197,10 +238,10 @@ theorem disclosed_tokens_within_permission (now : Nat) (s : Node) (e : Event) (q
   **Permissions come only from the user.**  Over any history: a permission entry for peer `p` exists only if the history
   contains a `request_attestation_advertisement` call naming `p`, and it never exceeds the chain length.
 -/
-theorem permission_only_by_user (me : Key) (g : List (Key × Hash)) (pre : List (Nat × Event)) (p : Key) (n : Nat)
-    (h : lookup p (run (init me g) pre).1.perms = some n) :
-    n ≤ (run (init me g) pre).1.chain.length ∧ ∃ t tok md ml, (t, Event.advertise p tok md ml) ∈ pre := by
-  have := run_permsFrom pre [] _ (init_permsFrom me g)
+theorem permission_only_by_user (g : List (Key × Hash)) (s0 : Node) (hs0 : Fresh g s0) (pre : List (Nat × Event))
+    (p : Key) (n : Nat) (h : lookup p (run s0 pre).1.perms = some n) :
+    n ≤ (run s0 pre).1.chain.length ∧ ∃ t tok md ml, (t, Event.advertise p tok md ml) ∈ pre := by
+  have := run_permsFrom pre [] _ (fresh_permsFrom hs0)
   simp only [List.nil_append] at this
   exact this p n h
 
@@ -210,15 +251,15 @@ theorem chain_is_append_only (s : Node) (evs : List (Nat × Event)) : s.chain <+
 
 /-- A peer the user never named in `request_attestation_advertisement` receives no token from any
     RequestMissingPayload, whatever else happened before. -/
-theorem unpermitted_peer_gets_nothing (me : Key) (g : List (Key × Hash)) (pre : List (Nat × Event)) (now : Nat)
-    (e : Event) (q : Key) (ts : List Hash)
+theorem unpermitted_peer_gets_nothing (g : List (Key × Hash)) (s0 : Node) (hs0 : Fresh g s0)
+    (pre : List (Nat × Event)) (now : Nat) (e : Event) (q : Key) (ts : List Hash)
     (hnever : ∀ t tok md ml, (t, Event.advertise q tok md ml) ∉ pre)
-    (h : Out.missingResponse q ts ∈ (step now (run (init me g) pre).1 e).2) : ts = [] := by
+    (h : Out.missingResponse q ts ∈ (step now (run s0 pre).1 e).2) : ts = [] := by
   apply (tokens_only_up_to_permission now _ e q ts h).2.2
-  cases hl : lookup q (run (init me g) pre).1.perms with
+  cases hl : lookup q (run s0 pre).1.perms with
   | none => rfl
   | some n =>
-    obtain ⟨_, t, tok, md, ml, hm⟩ := permission_only_by_user me g pre q n hl
+    obtain ⟨_, t, tok, md, ml, hm⟩ := permission_only_by_user g s0 hs0 pre q n hl
     exact absurd hm (hnever t tok md ml)
 
 example : ∃ pre : List (Nat × Event), (∀ t tok md ml, (t, Event.advertise 3 tok md ml) ∉ pre) ∧
@@ -226,20 +267,20 @@ example : ∃ pre : List (Nat × Event), (∀ t tok md ml, (t, Event.advertise 3
   ⟨[(0, .selfAdvertise 5), (1, .advertise 2 6 7 100)], by simp, by decide⟩
 
 /--
-  **Up to the position the user opened.**  Split any history at a `request_attestation_advertisement(p, …)` call after
+  **Up to the position the user opened.**  From any starting state, split any history at a `request_attestation_advertisement(p, …)` call after
   which `p` is not named again: in the final state the permission of `p` is the chain length right after that call, and
   the first that-many tokens of the final chain are exactly the chain as it was then.  With
   `tokens_only_up_to_permission`: whatever is requested later, `p` receives only tokens that existed when the user
   opened the chain to `p`.
 -/
-theorem permission_is_position_opened (me : Key) (g : List (Key × Hash)) (pre post : List (Nat × Event)) (t : Nat)
+theorem permission_is_position_opened (s0 : Node) (pre post : List (Nat × Event)) (t : Nat)
     (p : Key) (tok md : Hash) (ml : Nat)
     (hpost : ∀ x ∈ post, ∀ tok' md' ml', x.2 ≠ Event.advertise p tok' md' ml') :
-    lookup p (run (init me g) (pre ++ (t, Event.advertise p tok md ml) :: post)).1.perms
-        = some (run (init me g) (pre ++ [(t, Event.advertise p tok md ml)])).1.chain.length ∧
-    (run (init me g) (pre ++ (t, Event.advertise p tok md ml) :: post)).1.chain.take
-        (run (init me g) (pre ++ [(t, Event.advertise p tok md ml)])).1.chain.length
-      = (run (init me g) (pre ++ [(t, Event.advertise p tok md ml)])).1.chain := by
+    lookup p (run s0 (pre ++ (t, Event.advertise p tok md ml) :: post)).1.perms
+        = some (run s0 (pre ++ [(t, Event.advertise p tok md ml)])).1.chain.length ∧
+    (run s0 (pre ++ (t, Event.advertise p tok md ml) :: post)).1.chain.take
+        (run s0 (pre ++ [(t, Event.advertise p tok md ml)])).1.chain.length
+      = (run s0 (pre ++ [(t, Event.advertise p tok md ml)])).1.chain := by
   have hsplit : pre ++ (t, Event.advertise p tok md ml) :: post = (pre ++ [(t, Event.advertise p tok md ml)]) ++ post := by
     simp
   rw [hsplit, run_append]
@@ -251,5 +292,37 @@ theorem permission_is_position_opened (me : Key) (g : List (Key × Hash)) (pre p
 
 example : lookup 2 (run (init 1 []) [(0, .selfAdvertise 5), (1, .advertise 2 6 7 100), (2, .selfAdvertise 8),
     (3, .advertise 3 9 10 100)]).1.perms = some 2 := by decide
+
+/--
+  **Restarts.**  However many object lifetimes precede it (each: an arbitrary history, then a new object over the same
+  database with whatever chain `__init__` reloads), an object starts `Fresh`: every theorem above that takes a `Fresh`
+  start state therefore holds in every lifetime — consent has to be given again in the current lifetime, permissions
+  have to be opened again, stored rows still verify.
+-/
+theorem every_lifetime_starts_fresh (me : Key) (g : List (Key × Hash))
+    (ls : List (List (Nat × Event) × List Hash)) : Fresh g (lifetimes (init me g) ls) :=
+  lifetimes_fresh ls _ (init_fresh me g)
+
+/-
+  FULL statement wanted by "it has not attested it already", across lifetimes:
+      ∀ ls evs, the attest outputs of all lifetimes together contain no metadata hash twice.
+  It is FALSE for the code as it is (known finding `should_sign:attested-twice-after-restart`): the only persistent
+  record is the node's own Attestations row, which `INSERT OR IGNORE` drops when a third party's row for the same
+  (subject, metadata) exists.  Proved part: `attests_each_metadata_once_per_lifetime`.  Witness of the negation:
+  lifetime 1 attests metadata 12 (third party's attestation stored first), the object is restarted, the user registers
+  the hash again, the old disclosure is replayed, and metadata 12 is attested a second time.
+-/
+def exThird : Msg := { exMsg with atts := [(3, { mptr := 12, sig := .ext 5, vk := 8 })] }
+
+theorem attested_again_after_restart_witness :
+    attestsOf (run (init 1 [(1, 0), (2, 1)]) (exPre ++ [(110, .disclosure 2 exThird [12])])).2 = [12] ∧
+    attestsOf (run (restartOf (run (init 1 [(1, 0), (2, 1)]) (exPre ++ [(110, .disclosure 2 exThird [12])])).1 [])
+      ([(200, .addKnown 32 7 8 1 2 none), (210, .disclosure 2 exThird [12])])).2 = [12] := by decide
+
+/-- without the third party's row the node's own row survives the restart and the database guard refuses -/
+example : attestsOf (run (restartOf (run (init 1 [(1, 0), (2, 1)]) (exPre ++ [(110, .disclosure 2 exMsg [12])])).1 [])
+      ([(200, .addKnown 32 7 8 1 2 none), (210, .disclosure 2 exMsg [12])])).2 = [] := by decide
+
+example : Fresh [(1, 0), (2, 1)] (init 1 [(1, 0), (2, 1)]) := init_fresh _ _
 
 end Ipv8.C17
